@@ -12,6 +12,16 @@ Record c03_round := {
   k2_chains : option (list (list nat))
 }.
 
+(* what the lattice answered right after one step of a mutation history (the derived observers were
+   also asked right BEFORE the step, on the same object): its concept list at that moment, children /
+   parents of every index, top / bottom, get_chains() *)
+Record c03_snap := {
+  s_concepts : list concept;
+  s_chi : list (list nat); s_par : list (list nat);
+  s_top : option nat; s_bot : option nat;
+  s_chains : option (list (list nat))
+}.
+
 Record c03_case := {
   k_table : table;
   k_algo : nat;                 (* build path.  from_context: 0 CbO  1 Lindig  2 default (= Lindig)  3 Sofia;
@@ -36,7 +46,8 @@ Record c03_case := {
      immutable for its users, so every answer must be what it was.  None: the harness found the
      second round equal to the first, value by value (it then ships nothing); otherwise the second
      round is shipped and compared here *)
-  k_round2 : option c03_round
+  k_round2 : option c03_round;
+  k_snaps : list c03_snap
 }.
 
 (* concepts may be listed with their extent_i / intent_i in any order (from_objects(is_extent=True),
@@ -138,8 +149,34 @@ Definition round2_same (c : c03_case) : bool :=
       opt_chains_eqb (k_chains c) (k2_chains r)
   end.
 
+Definition distinctb (l : list (list nat)) : bool :=
+  (fix go (l : list (list nat)) : bool :=
+     match l with [] => true | x :: l' => negb (existsb (nat_list_eqb x) l') && go l' end) l.
+
+Definition snap_model (s : c03_snap) : bool :=
+  let cs := s_concepts s in let n := length cs in
+  lists_eqb (per_index n (children_nocache cs)) (s_chi s) &&
+  lists_eqb (per_index n (parents_nocache cs)) (s_par s) &&
+  opt_nat_eqb (top_index cs) (s_top s) && opt_nat_eqb (bottom_index cs) (s_bot s) &&
+  opt_chains_eqb (get_chains_nocache cs) (s_chains s).
+
+Definition snap_spec (t : table) (s : c03_snap) : bool :=
+  let cs := map canon_concept (s_concepts s) in
+  let exts := map fst cs in let n := length cs in
+  forallb (fun cc => is_conceptb t (fst cc) (snd cc)) cs && distinctb exts &&
+  lists_eqb (s_chi s) (map (spec_children exts) (seq 0 n)) &&
+  lists_eqb (s_par s) (map (spec_parents exts) (seq 0 n)) &&
+  match s_top s, s_bot s, s_chains s with
+  | Some kt, Some kb, Some chains =>
+      Nat.ltb kt n && Nat.ltb kb n &&
+      nat_list_eqb (set_at exts kt) (all_objs t) &&
+      nat_list_eqb (set_at exts kb) (ext t (all_attrs t)) &&
+      chains_okb exts kt chains
+  | _, _, _ => false
+  end.
+
 Definition c03_same_as_model (c : c03_case) : bool :=
-  Nat.eqb (k_err c) 0 && round2_same c &&
+  Nat.eqb (k_err c) 0 && round2_same c && forallb snap_model (k_snaps c) &&
   match k_pre c with
   | Some (pre, dict) => model_matches_lindig c pre dict
   | None => match k_algo c with
@@ -149,10 +186,6 @@ Definition c03_same_as_model (c : c03_case) : bool :=
   end.
 
 (* ------------------------------------------------------------------ the specification side *)
-Definition distinctb (l : list (list nat)) : bool :=
-  (fix go (l : list (list nat)) : bool :=
-     match l with [] => true | x :: l' => negb (existsb (nat_list_eqb x) l') && go l' end) l.
-
 (* all concepts of the table are present: by the oracle (closures of all 2^h object subsets) for
    h <= 7; for taller tables by generation: the full object set is an extent and the extents are
    closed under intersection with every attribute extent (Lemmas/C03.v: generated_complete) *)
@@ -169,7 +202,7 @@ Definition c03_spec_ok (c : c03_case) : bool :=
   let t := k_table c in let cs := map canon_concept (k_concepts c) in
   let exts := map fst cs in let ints := map snd cs in let n := length cs in
   let complete := completeb t cs in
-  Nat.eqb (k_err c) 0 && wfb t && round2_same c &&
+  Nat.eqb (k_err c) 0 && wfb t && round2_same c && forallb (snap_spec t) (k_snaps c) &&
   (* the lattice is the set of all concepts of the table, each once *)
   forallb (fun cc => is_conceptb t (fst cc) (snd cc)) cs && distinctb exts &&
   (mutated c || complete) &&
